@@ -73,6 +73,18 @@ fn content(rng: &mut Rng, cl: &mut Classes) -> (Vec<u8>, &'static str) {
     match rng.below(10) {
         0 => ((*rng.pick(&[&b"[1]"[..], b"{}", b"1 = 2\n", b"\"a\" = 1\n", b"[a]\n", b"a: b\n", b"k = \"a: b\"\n", b"", b"", b"\n", b"# only a comment\n"])).to_vec(), "valid_in_several_formats"),
         1 => ((*rng.pick(&[&b"{\"a\": [}"[..], b"\x01\x02 nothing", b"a: [unclosed\n", b"= 1\n", b"\xc1"])).to_vec(), "invalid"),
+        2 if rng.chance(1, 3) => {
+            // a large document: a multi-line string far above the stdout buffer whose last line is long, and
+            // enough entries for tens of KiB of output in every target
+            use crate::model::Val;
+            let lines = rng.range(1200, 2400);
+            let tail = rng.range(1100, 3000);
+            let text = format!("{}{}", "line of text\n".repeat(lines), "y".repeat(tail));
+            let list: Vec<Val> = (0..rng.range(200, 400)).map(|i| Val::Str(format!("entry number {i}\nwith a second line {}", "z".repeat(i % 40)))).collect();
+            let doc = Val::Map(vec![(Val::s("text"), Val::Str(text)), (Val::s("list"), Val::Seq(list)), (Val::s("n"), Val::Int(7))]);
+            let f = ALL[rng.below(4)];
+            (crate::spell::spell(f, &doc, rng, &mut feats, true), "large_multiline_content")
+        }
         _ => {
             let f = ALL[rng.below(4)];
             let n = if f == Fmt::Toml { 1 } else { *rng.pick(&[1usize, 1, 2, 3]) };
@@ -273,9 +285,9 @@ pub fn run(ctx: &Ctx) -> i32 {
         judge(&case, acc);
     });
     strace_sample(&mut acc);
-    let rule = format!("{} invocations: -f absent or each format x 1-3 inputs, each a regular file / FIFO / '-' (also twice; standard input a pipe, or a regular file at offset 0 or past earlier bytes; one run in five delivers pipe and FIFO content in bursts with pauses) / directory / missing file, named with every extension in random letter case, multi-dot, none or misleading, holding content of each format (1-3 generated documents), content valid in several formats, or invalid content, x all targets; expected stdout and exit status computed by the library in the matching supply mode; distinct non-trivial = distinct invocations", n);
+    let rule = format!("{} invocations: -f absent or each format x 1-3 inputs, each a regular file / FIFO / '-' (also twice; standard input a pipe, or a regular file at offset 0 or past earlier bytes; one run in five delivers pipe and FIFO content in bursts with pauses) / directory / missing file, named with every extension in random letter case, multi-dot, none or misleading, holding content of each format (1-3 generated documents), content valid in several formats, large documents with long multi-line strings (tens of KiB of output), or invalid content, x all targets; expected stdout and exit status computed by the library in the matching supply mode; distinct non-trivial = distinct invocations", n);
     ev::finish(
-        Finish { ctx, level: "exploration", rule, assumptions: vec!["document-less YAML regular files are kept out (recorded C02 finding)".into(), "strace counters are evidence that both supply modes were really observed, not an oracle".into()], extra: serde_json::Map::new(), exhaustive: false, min_distinct: 1000, must_reach: vec![("input_kind_fifo".into(), 200), ("input_kind_stdin".into(), 200), ("input_kind_regular".into(), 1000), ("extension_with_upper_case".into(), 500), ("extension_kind_multi_dot".into(), 200), ("stdin_named_twice".into(), 20), ("resolved_detect_slice".into(), 100), ("resolved_detect_reader".into(), 100), ("stdin_is_regular_file_at_later_offset".into(), 100), ("stdin_is_regular_file_at_offset_0".into(), 50), ("stdin_delivered_in_bursts".into(), 50), ("fifo_delivered_in_bursts".into(), 50), ("content_zero_length".into(), 100)] },
+        Finish { ctx, level: "exploration", rule, assumptions: vec!["document-less YAML regular files are kept out (recorded C02 finding)".into(), "strace counters are evidence that both supply modes were really observed, not an oracle".into()], extra: serde_json::Map::new(), exhaustive: false, min_distinct: 1000, must_reach: vec![("input_kind_fifo".into(), 200), ("input_kind_stdin".into(), 200), ("input_kind_regular".into(), 1000), ("extension_with_upper_case".into(), 500), ("extension_kind_multi_dot".into(), 200), ("stdin_named_twice".into(), 20), ("resolved_detect_slice".into(), 100), ("resolved_detect_reader".into(), 100), ("stdin_is_regular_file_at_later_offset".into(), 100), ("stdin_is_regular_file_at_offset_0".into(), 50), ("stdin_delivered_in_bursts".into(), 50), ("fifo_delivered_in_bursts".into(), 50), ("content_zero_length".into(), 100), ("content_large_multiline_content".into(), 100)] },
         acc,
     )
 }
